@@ -207,7 +207,7 @@ class MemoryGrowth:
         env = dict(os.environ)
         if os.path.realpath(repo) != "/repo":
             env["PYTHONPATH"] = repo
-        bound = "one member of 320 MiB and of 640 MiB%s archived from disk and extracted to disk and to a null writer under tracemalloc, chains %s, data compressing to one half and to almost nothing: peak(640) - peak(320) <= 80 MiB and every peak <= 700 MiB; Python-level allocations only (C-level encoder state is not traced)" % (" (and 1280 MiB)" if tier == "thorough" else "", "COPY, LZMA2, BZip2, ZStandard, Deflate" if tier == "thorough" else "LZMA2, ZStandard, Deflate")
+        bound = "one member of 320 MiB and of 640 MiB%s archived from disk and extracted to disk and to a null writer under tracemalloc, chains %s, data compressing to one half and to almost nothing: peak(640) - peak(320) <= 80 MiB and every peak <= 700 MiB; Python-level allocations only (C-level encoder state is not traced)" % (" (and 1280 MiB for the two small-archive cases)" if tier == "thorough" else "", "COPY, LZMA2, BZip2, ZStandard, Deflate" if tier == "thorough" else "LZMA2, ZStandard, Deflate")
         ev = {"name": self.name, "level": "bounded", "bound": bound}
         try:
             p = subprocess.run(["/venv/bin/python", os.path.join(HERE, "bounded", "memory.py"), tier, str(seed)], capture_output=True, text=True, timeout=1800 if tier == "quick" else 7200, env=env, cwd=HERE)
